@@ -75,6 +75,8 @@ class World(BaseWorld):
         self.pool = []
         self.active = ORACLES[prop]
         self.nops = 0
+        self.bigint = bool(cfg.get("bigint"))
+        BIGINT_MODE[0] = self.bigint
 
     def fail(self, oracle, detail):
         if oracle in self.active:
@@ -290,6 +292,8 @@ class World(BaseWorld):
     def gen_new(self, rng):
         r = rng.random()
         if r < 0.12:
+            if self.bigint:
+                return {"op": "num", "v": rng.choice([0, 1, -1, 2, 3, -2, 2**55 + 1, -(3**36)])}
             return {"op": "num", "v": rng.choice([0, 1, -1, 2, 3, -2, 0.5, -0.5, 4])}
         if r < 0.27:
             t = "dict"
@@ -352,6 +356,8 @@ class World(BaseWorld):
         return None if a is None else {"op": rng.choice(["neg", "pos"]), "a": a}
 
     def gen_div(self, rng):
+        if self.bigint:
+            return None        # true division yields floats
         a = self.pick(rng, lambda s: s.is_model)
         return None if a is None else {"op": "div", "a": a, "c": rng.choice([2, -2, 4, 0.5, -1, 1, 8]), "inplace": rng.random() < 0.4}
 
@@ -896,7 +902,7 @@ class World(BaseWorld):
         cur = A.shadow.t.get(sk, Fraction(0))
         new = {"set": frac(v), "iadd": cur + frac(v), "isub": cur - frac(v), "imul": cur * frac(v)}[f]
         big = len(sk) > 2 and A.t in DEG2
-        if abs(new.numerator) >= LIMIT or new.denominator >= LIMIT:
+        if not self.bigint and (abs(new.numerator) >= LIMIT or new.denominator >= LIMIT):
             return "skipped-inexact"
         if A.t in MATRIX and any((not isinstance(x, int)) or x < 0 for x in key):
             return "skipped"
@@ -1048,7 +1054,9 @@ class World(BaseWorld):
         want = A.shadow.value({l: x[l] for l in A.shadow.variables()})
         # the value functions add floats: only judged when every partial sum is exactly representable
         dy = dyadic(A.shadow)
-        if dy is None or sum((abs(v) for v in A.shadow.t.values()), Fraction(0)) * (1 << dy[1]) >= (1 << 52):
+        if self.bigint:
+            pass
+        elif dy is None or sum((abs(v) for v in A.shadow.t.values()), Fraction(0)) * (1 << dy[1]) >= (1 << 52):
             self.probe("value_skipped_inexact_sum")
             return "skipped-inexact"
         fns = self.qu
@@ -1149,9 +1157,15 @@ def dyadic(p):
     return M, K
 
 
+BIGINT_MODE = [False]
+
+
 def exact_ok(*polys, product=False):
     """Will qubovert's float arithmetic be exact?  Every intermediate sum of products must fit 52 bits over the common
     power-of-two denominator (a product n1/2^k1 * n2/2^k2 needs |n1 n2| < 2^53, sums of T of them log2 T bits more)."""
+    if BIGINT_MODE[0]:
+        # integer-only run: Python int arithmetic is exact at any size (bounded only to keep the run fast)
+        return all(v.denominator == 1 and abs(v.numerator) < (1 << 600) for p in polys for v in p.t.values())
     ds = [dyadic(p) for p in polys]
     if any(d is None for d in ds):
         return False
@@ -1203,6 +1217,9 @@ def gen_cfg(rng, prop, tier):
         "kind": rng.choice([BOOL, SPIN]),
         "labels": labels, "alphabet": [enc_label(l) for l in alpha],
         "coefs": rng.choice([[-1, 1], [-2, -1, 1, 2], [-3, -2, -1, 1, 2, 3], [-1, 1, 2, 4, 0.5], [1024, -1024, 1, -1, 3]]),
+        # "bigint" runs: integer coefficients far beyond 2^53 and no float anywhere, so every result is an exact Python int and any
+        # silent conversion to float inside the library (e.g. in a value function) becomes visible
+        "bigint": rng.random() < 0.12,
         "p_zero": rng.choice([0.0, 0.1, 0.3]),
         "messy": rng.random() < 0.5, "observe": rng.choice(["every", "every", "sparse"]),
         "p_messy_key": rng.choice([0.0, 0.2, 0.5]),
@@ -1211,6 +1228,10 @@ def gen_cfg(rng, prop, tier):
         "n_ops": rng.choice([4, 8, 15, 25] if tier == "quick" else [4, 8, 15, 25, 40, 60]),
         "weights": w,
     }
+    if cfg["bigint"]:
+        cfg["coefs"] = rng.choice([[3**34, -(3**34), 1, -1], [2**60 + 1, -(2**61) + 3, 5**25, 7], [10**17 + 3, -(10**18) - 7, 2]])
+        w["cons"] = 0
+        w["enum"] = 0
     if rng.random() < 0.25:
         pool = BOOL_TYPES if cfg["kind"] == BOOL else SPIN_TYPES
         cfg["types"] = rng.sample(pool, rng.randint(1, 2))
